@@ -242,7 +242,7 @@ class ResourcePeriodicallyUnavailable(ResourceConstraint):
         if isinstance(self.resource, Worker):
             workers = [self.resource]
         elif isinstance(self.resource, CumulativeWorker):
-            workers = self.resource.cumulative_workers
+            workers = self.resource._cumulative_workers
 
         resource_assigned = False
 
@@ -421,7 +421,7 @@ class ResourcePeriodicallyInterrupted(ResourceConstraint):
         if isinstance(self.resource, Worker):
             workers = [self.resource]
         elif isinstance(self.resource, CumulativeWorker):
-            workers = self.resource.cumulative_workers
+            workers = self.resource._cumulative_workers
 
         resource_assigned = False
 
